@@ -120,8 +120,9 @@ func discardPeeked(r io.Reader, n int) {
 func peek(r io.Reader, b []byte) (shouldRewind bool, err error) {
 	if br, ok := r.(*bufio.Reader); ok {
 		var bs []byte
-		bs, err = br.Peek(len(b))
-		if err != nil {
+		// As for other readers, hitting the end of a short input is not an error here, the caller examines what is
+		// there
+		if bs, err = br.Peek(len(b)); err != nil && (err != io.EOF || len(bs) == 0) {
 			return
 		}
 		copy(b, bs)
